@@ -1,7 +1,7 @@
 (* C02 -- top-level corollaries, refutations of the unguarded / unfixed statements, and the facts that make
    the examples of Props/C02.v go through (all on the lawful one-qubit instance of Proofs/SimTiny.v). *)
 From Coq Require Import List Arith NArith Bool ZArith QArith Qcanon Lia Field.
-From QV Require Import Model.Sim Spec.Branch Proofs.SimLaws Proofs.SimCond Proofs.SimRun Proofs.SimStats Proofs.SimDM Proofs.SimTiny.
+From QV Require Import Model.Sim Spec.Branch Proofs.SimLaws Proofs.SimCond Proofs.SimRun Proofs.SimStats Proofs.SimDM Proofs.SimDMB Proofs.SimTiny.
 Import ListNotations.
 
 (* ---- the probabilities reported by run_statistics sum to one ---------------------------------------- *)
@@ -64,7 +64,8 @@ Proof.
 Qed.
 
 (* (b) density-matrix mode with a gate conditioned on a measured bit: H; measure -> c0; X if c0 == 1 on |0>.
-   Both branches end in |0>, the mixture is |0><0|; the code returns the maximally mixed state. *)
+   Both branches end in |0>, the mixture is |0><0|; the code BEFORE fixes/C02-dm-classical-control.diff (dm_run_orig:
+   conditions tested against the initial register) returns the maximally mixed state. *)
 Definition dm_bad_circ : circ tiny :=
   mkCirc [ OGate (X:=tiny) GH None; OMeas (X:=tiny) tt (Some 0%nat); OGate (X:=tiny) GX (Some ([0%nat], 1%N)) ] 1.
 
@@ -73,7 +74,7 @@ Lemma dm_is_mixture_refuted :
     wf tiny (c_ncb tiny c) (c_ops tiny c) = true /\ nrm tiny s0 = 1 /\
     dm_clear tiny (c_ops tiny c) (init_cbits (c_ncb tiny c) None) (dm_of tiny s0) = true /\
     dm_safe tiny (c_ops tiny c) = false /\
-    exists h' rho p ref, dm_run tiny false c (dm_of tiny s0) None [] = Ok (h', (rho, p, ref)) /\
+    exists h' rho p ref, dm_run_orig tiny false c (dm_of tiny s0) None [] = Ok (h', (rho, p, ref)) /\
       rho <> mixture tiny (c_ops tiny c) s0 (init_cbits (c_ncb tiny c) None).
 Proof.
   exists dm_bad_circ, ket0.
@@ -111,6 +112,10 @@ Lemma ex2_clear_all : clear_all tiny ex_ops2 ket0 (init_cbits 2 (Some [1%nat; 0%
 Lemma ex3_wf : wf tiny 2 ex_ops3 = true. Proof. vm_compute. reflexivity. Qed.
 Lemma ex3_safe : dm_safe tiny ex_ops3 = true. Proof. vm_compute. reflexivity. Qed.
 Lemma ex3_clear : dm_clear tiny ex_ops3 (init_cbits 2 (Some [0%nat; 1%nat])) (dm_of tiny ket0) = true. Proof. vm_compute. reflexivity. Qed.
+Lemma ex3_guard : dm_guard tiny 2 ex_ops3 (init_cbits 2 (Some [0%nat; 1%nat])) (dm_of tiny ket0) = true. Proof. vm_compute. reflexivity. Qed.
+Lemma dm_bad_wf : wf tiny 1 (c_ops tiny dm_bad_circ) = true. Proof. vm_compute. reflexivity. Qed.
+Lemma dm_bad_guard : dm_guard tiny 1 (c_ops tiny dm_bad_circ) (init_cbits 1 None) (dm_of tiny ket0) = true. Proof. vm_compute. reflexivity. Qed.
+Lemma dm_bad_branching : dm_branching tiny (c_ops tiny dm_bad_circ) = true. Proof. reflexivity. Qed.
 (* the conditioned gates of the examples do fire in some branches and not in others *)
 Lemma ex_branches_differ :
   bcbits tiny ex_ops [true; false] ket0 [0%nat; 0%nat] = [1%nat; 0%nat] /\
